@@ -790,3 +790,168 @@ def attr_header_step_unit(props):
 
 def step_units(props):
     return [prefix_step_unit(props), attr_header_step_unit(props)]
+
+
+# ================================================================ coupled attributes: position must not matter
+def coupled_order_units(props):
+    """Update.parse_attributes on a stream holding two COUPLED attributes, in both orders.  The element decoders are
+    abstracted (call hook: MpReachNLRI.parse reports a BGP-LS NLRI with protocol id PID; LinkState.unpack / PMSITunnel.parse
+    are recorded with their arguments).  Contract (C15): whatever the position of the LINK_STATE attribute (29), it is decoded
+    exactly once, from exactly its own octets, with the protocol id of the message's BGP-LS NLRI."""
+    qual = UPD + 'parse_attributes'
+    out = []
+    for order in ('LINK_STATE-first', 'MP_REACH-first'):
+        def build(it, order=order):
+            calls = []
+            pid = SNum(z3.Int('bgpls_protocol_id'))
+            it.p.assume(z3.And(pid.t >= 1, pid.t <= 255))
+
+            def hook(it2, fv, args, kw):
+                f = fv.func if isinstance(fv, BoundMethod) else (fv if isinstance(fv, Func) else None)
+                if f is None or not f.module.name.startswith('yabgp.message.attribute'):
+                    return False, None
+                if f.node.name in ('parse', 'unpack') and f.cls is not None:
+                    calls.append((f.cls.name, list(args), dict(kw)))
+                    if f.cls.name == 'MpReachNLRI':
+                        return True, {'afi_safi': (16388, 71), 'nexthop': '10.0.0.1', 'nlri': [{'type': 'link', 'protocol_id': pid}]}
+                    return True, Opaque('decoded by %s' % f.cls.name)
+                if f.node.name == 'signal_evpn_overlay':
+                    return True, {'evpn': False, 'encap_ec': False}
+                return False, None
+            it.call_hook = hook
+            it.concrete_loops = True
+            ls_val = SBytes.fresh('ls_value')
+            n = it.p.concretize(ls_val.len, limit=5, what='LINK_STATE value length') if it.p.branch(ls_val.len <= 3) else None
+            if n is None:
+                raise Infeasible()
+            mp_val = SBytes.fresh('mp_value')
+            m = it.p.concretize(mp_val.len, limit=5, what='MP_REACH value length') if it.p.branch(mp_val.len <= 2) else None
+            if m is None:
+                raise Infeasible()
+            ls_val = SBytes(n, ls_val._at)
+            mp_val = SBytes(m, mp_val._at)
+            ls = A.attr(29, ls_val, flags=0x80)
+            mp = A.attr(14, mp_val, flags=0x80)
+            data = SP.cat(ls, mp) if order == 'LINK_STATE-first' else SP.cat(mp, ls)
+            it._coupled = (calls, pid, ls_val)
+            return [], [SBytes.of(data), False, None], {}, None
+
+        def spec(c, data, asn4, afi_add_path):
+            from pyvc.contracts import Spec, Any
+            calls, pid, ls_val = c.it._coupled
+            sp = Spec()
+            # errors of the (abstracted) element decoders are a possible outcome; the contract is about a message that decodes
+            sp.may_raise = ('UpdateMessageError', 'OpaqueException')
+
+            def once():
+                ls = [x for x in calls if x[0] == 'LinkState']
+                return z3.BoolVal(len(ls) == 1)
+
+            def right_pid():
+                ls = [x for x in calls if x[0] == 'LinkState']
+                if len(ls) != 1:
+                    return z3.BoolVal(False)
+                got = ls[0][2].get('bgpls_pro_id', ls[0][1][0] if ls[0][1] else None)
+                if not isinstance(got, (int, SNum)):
+                    return z3.BoolVal(False)
+                return to_term(got) == pid.t
+
+            def right_octets():
+                ls = [x for x in calls if x[0] == 'LinkState']
+                if len(ls) != 1:
+                    return z3.BoolVal(False)
+                got = ls[0][2].get('data')
+                g = []
+                if not isinstance(got, (bytes, SBytes)) or not same_value(SBytes.of(got), ls_val, g, 'data'):
+                    return z3.BoolVal(False)
+                return z3.And([t for _, t in g]) if g else z3.BoolVal(True)
+
+            def on_return(got):
+                return z3.And(once(), right_pid(), right_octets())
+            sp.ret = Any(on_return, 'LINK_STATE decoded exactly once, from its own octets, with the protocol id of the BGP-LS NLRI')
+            return sp
+        out.append(Unit('Update.parse_attributes[coupled:%s]' % order, qual, build, spec, kind='codec', props=props,
+                        verify_kw={'light': True}))
+    return out
+
+# ================================================================ construct-only family: tunnel encapsulation / SR-TE policy
+def tunnel_encaps_units(props):
+    from specs import walker as W
+    from pyvc.contracts import Spec, Any
+    qual = 'yabgp.message.attribute.tunnelencaps.TunnelEncaps.construct'
+
+    def build(it):
+        def I(n, lo, hi):
+            return sym_int(it, n, lo, hi)
+        sid = {'label': I('sid_label', 0, 2 ** 20 - 1), 'TC': I('sid_tc', 0, 7), 'S': I('sid_s', 0, 1), 'TTL': I('sid_ttl', 0, 255)}
+        sid_min = {'label': I('sid_label2', 0, 2 ** 20 - 1)}
+        segs_all = [
+            {'1': {'label': I('l1', 0, 2 ** 20 - 1)}},
+            {'1': dict(sid)},
+            {'3': {'node': '10.1.1.1'}},
+            {'3': {'node': '10.1.1.1', 'SID': dict(sid)}},
+            {'5': {'interface': I('ifidx', 0, 2 ** 32 - 1), 'node': '10.1.1.2'}},
+            {'5': {'interface': I('ifidx2', 0, 2 ** 32 - 1), 'node': '10.1.1.2', 'SID': dict(sid_min)}},
+            {'6': {'local': '10.1.1.3', 'remote': '10.1.1.4'}},
+            {'6': {'local': '10.1.1.3', 'remote': '10.1.1.4', 'SID': dict(sid)}},
+        ]
+        k = it.p.choose(6, 'policy-shape')
+        if k == 0:
+            pol = {'0': 'new', '12': I('pref', 0, 2 ** 32 - 1), '13': I('bsid', 0, 2 ** 20 - 1),
+                   '128': [{'9': I('w', 0, 2 ** 32 - 1), '1': segs_all}]}
+        elif k == 1:
+            pol = {'0': 'old', '6': I('pref', 0, 2 ** 32 - 1), '7': I('bsid', 0, 2 ** 20 - 1),
+                   '128': [{'9': I('w', 0, 2 ** 32 - 1), '1': segs_all[:3]}, {'1': segs_all[3:]}]}
+        elif k == 2:
+            pol = {'0': 'new', '128': [{'1': [segs_all[j]]} for j in range(len(segs_all))]}
+        elif k == 3:
+            pol = {'0': 'new', '12': I('pref', 0, 2 ** 32 - 1), '14': I('enlp', 0, 255), '15': I('prio', 0, 255), '129': 'policy-A',
+                   '6': {'asn': I('ep_asn', 0, 2 ** 32 - 1), 'afi': 'ipv4', 'address': '10.9.9.9'}, '128': [{'1': segs_all[6:]}]}
+        elif k == 4:
+            pol = {'0': 'old', '12': I('pref', 0, 2 ** 32 - 1), '13': I('bsid', 0, 2 ** 20 - 1), '128': []}
+        else:
+            pol = {'0': 'new', '6': {'asn': I('ep_asn', 0, 2 ** 32 - 1), 'afi': 'ipv6', 'address': '2001:db8::1'},
+                   '128': [{'9': I('w', 0, 2 ** 32 - 1), '1': []}]}
+        cls = it.prog.func('yabgp.message.attribute.tunnelencaps.TunnelEncaps')
+        return [], [cls, pol], {}, {'args': [pol]}
+
+    def spec(c, cls, value):
+        sp = Spec()
+
+        def wf(got):
+            if not isinstance(got, (bytes, SBytes)):
+                return False
+            try:
+                probs = W.wf_tunnel_encaps(got)
+            except W.WalkUndetermined:
+                # a length / type octet depends on field values: the walk cannot be decided symbolically.  Look for ONE concrete
+                # assignment under which the walk fails: that refutes the clause with a replayable input; otherwise undecided.
+                from pyvc import smt
+                from pyvc.values import Unsupported
+                b = SBytes.of(got)
+                m = smt.path_model(c.it.p)
+                if m is None:
+                    raise Unsupported('structure walk undetermined (no model)')
+                n = m.eval(b.len, model_completion=True).as_long()
+                conc = bytes(m.eval(b.at(i), model_completion=True).as_long() for i in range(n))
+                probs = W.wf_tunnel_encaps(conc)
+                if not probs:
+                    raise Unsupported('structure walk undetermined for symbolic length octets')
+                eqs = [d() == m[d] for d in m.decls() if d.arity() == 0 and z3.is_int(d())]
+                return z3.Not(z3.And(eqs)) if eqs else False
+            return not probs
+        sp.ret = Any(wf, 'a Tunnel Encapsulation attribute every nested length field of which equals the octets that follow')
+        return sp
+    def request(oc, model):
+        from pyvc import replay as RP
+        return {'kind': 'call', 'function': qual, 'args': [RP.jval(RP.concretize(model, a)) for a in oc.extra['ctx']['args']], 'cpu_s': 5.0}
+
+    def expected(oc, model, out):
+        import binascii
+        if out.get('outcome') != 'return':
+            return ['real code raised %s %s' % (out.get('exc'), out.get('exc_str', ''))]
+        r = out.get('result')
+        if not (isinstance(r, dict) and 'hex' in r):
+            return ['real code returned %r' % (r,)]
+        return W.wf_tunnel_encaps(binascii.a2b_hex(r['hex']))
+    return [Unit('TunnelEncaps.construct[structure]', qual, build, spec, kind='codec', props=props, request=request, expected=expected)]
